@@ -10,7 +10,8 @@ VERIF="$(cd "$(dirname "$0")/.." && pwd)"
 REPO="${VERIF_REPO:-/repo}"
 DRV="$VERIF/tools/factdrv/target/release/factdrv"
 TARGET="$VERIF/.cache/target-$CONFIG"
-if [ ! -x "$DRV" ]; then
+# (re)build the driver when its source is newer than the binary
+if [ ! -x "$DRV" ] || [ "$VERIF/tools/factdrv/src/main.rs" -nt "$DRV" ]; then
   (cd "$VERIF/tools/factdrv" && CARGO_NET_OFFLINE=true cargo +nightly build --release --offline >/dev/null 2>&1) || { echo "factdrv build failed" >&2; exit 2; }
 fi
 mkdir -p "$OUT" "$TARGET"
